@@ -336,3 +336,96 @@ def transport_release(ck):
     adapter_faults(ck)
 
 RELEASE_RULE = RELEASE_RULE + " (7) early exits and error paths of the adapters: " + FAULT_RULE
+
+
+# ---------------------------------------------------------------- the stream's source as a real transport
+# (appended block; model coq/Model/C03Source.v, theorems C03_source_* in Properties/C03.v, wire wrappers
+#  coq/Run/RunC03Source.v, harness command C03_source = harness/transports/source.go)
+SQ, SA, SD, SO, SE = 0, 1, 2, 3, 4
+QO, QA, QS, QR = 0, 1, 2, 3
+
+SOURCE_RULE = ("the stream published by a real RTSP RECORD session (TCP interleaved) with 1-3 real players of mixed transports "
+               "(RTSP/TCP, RTSP/UDP, ws-rtsp, WSP, HTTP-FLV, ws-FLV) attached to whatever is registered under the path; the "
+               "publisher repeats OPTIONS / ANNOUNCE / SETUP / RECORD at any moment (RECORD while recording with players attached "
+               "in every run), players come and go, in some cases another publisher takes the path; the source ends by TEARDOWN "
+               "or by dropping its connection; after every event: ConsumerCount of every stream ever registered under the path "
+               "(detected through the registry after each publishing request), the active RTSP / FLV / WSP connections relative to "
+               "before the case, which players have seen their connection end, and the conversion goroutines (RTP demuxer, FLV "
+               "muxer, TS muxer) alive in the process; the oracle ok_source demands the observations of the session as specified "
+               "(C03_source_model_passes; C03_source_end_releases_all says what they amount to when the source ends).")
+
+def source_witnesses():
+    R = lambda r: [SQ, r]
+    return [
+        [[0], [R(QA), R(QS), R(QR), [SA, 0], R(QR), [SE, 1]]],                                   # RECORD again, disconnect
+        [[5, 3], [R(QA), R(QS), R(QR), [SA, 0], [SA, 1], R(QR), R(QR), [SE, 0]]],                # ... TEARDOWN, FLV + WSP players
+        [[4, 1], [R(QA), R(QS), R(QR), [SA, 0], [SA, 1], R(QS), R(QA), R(QR), [SE, 0]]],         # SETUP / ANNOUNCE while recording
+        [[0, 5, 3, 2], [R(QO), R(QA), R(QA), R(QS), R(QS), R(QR), [SA, 0], R(QR), [SA, 1], R(QA), [SA, 2], [SD, 1, 0],
+                        R(QR), [SO], [SA, 3], R(QO), [SE, 0]]],                                  # Coq's non-vacuity example
+        [[2], [[SO], [SA, 0], R(QA), R(QS), R(QR), [SE, 1]]],                                    # takes the path from another publisher
+        [[1], [R(QS), R(QR), R(QA), R(QR), [SE, 1]]],                                            # never allowed to record
+    ]
+
+def source_rand_case(rng):
+    kinds = [rng.choice((0, 0, 1, 2, 3, 4, 5, 5)) for _ in range(rng.randint(1, 3))]
+    status, mode, reg, fresh, att, ev = 0, False, False, 0, [], []
+    def req(r):
+        nonlocal status, mode, reg
+        ev.append([SQ, r])
+        if r == QA and status == 0:
+            mode = True
+        elif r == QS and status < 2:
+            status = 1
+        elif r == QR and status == 1 and mode:
+            status, reg = 2, True
+    if rng.random() < 0.8:
+        for r in (QA, QS, QR):
+            req(r)
+    for _ in range(rng.randint(3, 12)):
+        x = rng.random()
+        if reg and fresh < len(kinds) and x < 0.35:
+            ev.append([SA, fresh]); att.append(fresh); fresh += 1
+        elif att and x < 0.45:
+            i = rng.choice(att); att.remove(i)
+            ev.append([SD, i, rng.choice((0, 1)) if kinds[i] != 4 else 1])
+        elif x < 0.52:
+            ev.append([SO]); reg = True
+        else:
+            req(rng.choice((QO, QA, QS, QR, QR, QR)))
+    if status == 2 and att and rng.random() < 0.7:
+        req(QR)
+    ev.append([SE, rng.choice((0, 1))])
+    return [kinds, ev]
+
+def source_release(ck):
+    import vlib
+    rng = ck.rng
+    cases = source_witnesses() + [source_rand_case(rng) for _ in range(500 if ck.thorough else 20)]
+    cases = [c for c in cases if not any(e[0] == SD and c[0][e[1]] == 4 for e in c[1])]   # HTTP-FLV players are not stopped mid-stream
+    try:
+        wf = vlib.run_driver("C03", "C03_source_wf", [vlib.vs(c) for c in cases])
+    except vlib.Broken as b:
+        ck.broken.append(b)
+        return
+    cases = [c for c, w in zip(cases, wf) if w == "1"]
+    def rerecord(c):       # RECORD while recording with somebody attached
+        rec, att = 0, 0
+        for e in c[1]:
+            if e[0] == SQ and e[1] == QR:
+                rec += 1
+                if rec >= 2 and att > 0:
+                    return True
+            elif e[0] == SA:
+                att += 1
+            elif e[0] == SD:
+                att -= 1
+        return False
+    ck.stream("source-release", cases, "C03_source_run", "C03_source", "C03_source_ok",
+              nontrivial=rerecord, sig=lambda c, e, o: "source-release", timeout=1500)
+
+_transport_release_before_source = transport_release
+def transport_release(ck):
+    _transport_release_before_source(ck)
+    source_release(ck)
+
+RELEASE_RULE = RELEASE_RULE + " (8) the stream's source as a real transport: " + SOURCE_RULE
